@@ -23,7 +23,7 @@ MANIFEST = dict(
 
 SYMS = ["a", "b", "foo", "+", "-", "...", "a.b", "x1", "set!", "λ", "->x", "list", "quote", "<=?", "if", "1+", "-x", ".a"]
 INTS = ["0", "1", "-7", "42", "+5", "123456789012345678901234567890", "-9223372036854775808"]
-NUMS = INTS + ["1/2", "-3/4", "1.5", "-0.0", ".5", "1e3", "6.02e23", "#x1F", "#b101", "#e1.5", "#i3", "#o17", "#d9", "#x-a"]
+NUMS = INTS + ["1/2", "-3/4", "1.5", "-0.0", ".5", "1e3", "6.02e23", "#x1F", "#b101", "#e1.5", "#i3", "#o17", "#d9", "#x-a", "#e#x10", "#x#e10", "#i#b101"]
 CHARS = ["#\\a", "#\\space", "#\\newline", "#\\x41", "#\\λ", "#\\(", "#\\tab", "#\\x3bb", "#\\1", "#\\;"]
 STRS = ['""', '"a"', '"a b"', '"\\n"', '"\\""', '"\\\\"', '"\\x41;"', '"(λ)"', '";"', '"a\\tb"']
 BOOLS = ["#t", "#f"]
@@ -37,7 +37,16 @@ def gen_datum(rng, depth):
     if depth <= 0 or r < 0.45:
         k = rng.random()
         if k < 0.35: return [rng.choice(SYMS)]
-        if k < 0.6: return [rng.choice(USE_NUMS)]
+        if k < 0.6:
+            # a radix/exactness prefix is a token of its own for the scanner: keep it a
+            # separate generator token so that cuts between prefix and digits are produced
+            n = rng.choice(USE_NUMS)
+            toks = []
+            while n.startswith("#") and len(n) > 2 and n[1] in "xbodei":
+                toks.append(n[:2]); n = n[2:]
+            if rng.random() < 0.15 and not toks:
+                toks = [rng.choice(["#x", "#e", "#d", "#b", "#i", "#o"])] if n.isdigit() and set(n) <= set("01") else toks
+            return toks + [n]
         if k < 0.72: return [rng.choice(CHARS)]
         if k < 0.87: return [rng.choice(STRS)]
         return [rng.choice(BOOLS)]
@@ -84,6 +93,8 @@ def cps(s):
 
 def corpus():
     out = []
+    for s, flag in [("#x", 1), ("(+ 1 #x", 1), ("'(a . #b", 1), ("#(1 #d", 1), ("#e#x", 1), ("#xff", 2), ("(+ 1 #x1f)", 2)]:
+        out.append([6, flag] + cps(s))
     for s in ["(a . b) c", "'(1 2 #(x \"s\\n\" #\\a)) ", "(1", "#\\x41 #\\space", ")", "\"\\x41;b\"", "(a . )", "#(1 . 2)",
               "[a}", "#xff #b101 #e12", "12abc", "( 1 2", "`(a ,b)", "", "   ; only a comment", "#", "#\\", "\"abc", "a;b\nc",
               "(a . b . c)", "(. a)", "#x", "#x #e", "'", "#(", "( ' )", "#\\xD800", "\"\\xD800;\"", "\"\\q\"", "#true", "1.2.3", ".", ". .", "..", "a . b"]:
@@ -232,6 +243,8 @@ def describe(case):
 
 
 def reductions(case):
+    if case[0] == 6:
+        return          # the expectation flag is only valid for the text it was generated with
     h = 1 if case[0] in (1, 4, 5) else 2
     head, text = case[:h], case[h:]
     for i in range(len(text)):
